@@ -105,9 +105,9 @@ func evalC05(c *Ctx, cs *Case) {
 			rec := NewRowRec()
 			o := Guard(func() error {
 				if ai == 0 {
-					return gtree.WalkFromMarkdown(strings.NewReader(doc), rec.Callback, bo...)
+					return gtree.WalkFromMarkdown(MDReader(doc), rec.Callback, bo...)
 				}
-				return gtree.Walk(strings.NewReader(doc), rec.Callback, bo...)
+				return gtree.Walk(MDReader(doc), rec.Callback, bo...)
 			})
 			c.Eval(gen.HashString(fkey+name+strconv.Itoa(bi)+sp.String()), nontrivial)
 			c.SetAdd("entries", name)
@@ -205,6 +205,72 @@ func evalC05(c *Ctx, cs *Case) {
 			}
 		}
 	}
+	// --- a tree on which an earlier call FAILED (a dry-run Mkdir / a Verify that rejects a name):
+	// the walk that follows must still show the tree as it is
+	for ri, root := range merged {
+		if ri > 1 {
+			break
+		}
+		depths, names := gen.Depths(model.Forest{root})
+		nn := append([]string(nil), names...)
+		pos := int((cs.Seed + uint64(ri)) % uint64(len(nn)))
+		nn[pos] = []string{"tmp/cache", "a/b/c"}[int(cs.Seed%2)]
+		hf := gen.FromDepths(depths, nn)
+		if len(hf) != 1 {
+			continue
+		}
+		g := BuildRoot(hf[0])
+		var failed [2]error
+		captureColorOutput(func() {
+			failed[0] = Guard(func() error { return gtree.MkdirFromRoot(g, gtree.WithDryRun()) }).Err
+		})
+		failed[1] = Guard(func() error { return gtree.VerifyFromRoot(g, gtree.WithTargetDir(c.TmpDir+"/no-such-dir")) }).Err
+		want := model.Rows(model.Merge(hf), model.DefaultBranch)
+		for i := range want {
+			want[i].Path = ""
+		}
+		for pass := 0; pass < 2; pass++ {
+			rec := NewRowRec()
+			var o Outcome
+			name := "WalkFromRoot(after a failed call)"
+			if pass == 0 {
+				o = Guard(func() error { return gtree.WalkFromRoot(g, rec.Callback) })
+			} else {
+				name = "WalkIterFromRoot(after a failed call)"
+				o = Guard(func() error {
+					for wn, err := range gtree.WalkIterFromRoot(g) {
+						if err != nil {
+							return err
+						}
+						if err := rec.Callback(wn); err != nil {
+							return err
+						}
+					}
+					return nil
+				})
+			}
+			rows := append([]model.Row(nil), rec.Rows...)
+			for i := range rows {
+				rows[i].Path = ""
+			}
+			c.Eval(gen.HashString(fkey+"afterfail"+root.Name+strconv.Itoa(ri*2+pass)), true)
+			c.Count("walks_after_a_failed_call", 1)
+			if failed[0] != nil || failed[1] != nil {
+				c.Count("walks_after_a_failed_call.earlier_call_did_fail", 1)
+			}
+			if o.Panic != nil || o.Err != nil || !RowsEqual(rows, want) {
+				var got, exp []string
+				for _, r := range rows {
+					got = append(got, r.Row)
+				}
+				for _, r := range want {
+					exp = append(exp, r.Row)
+				}
+				viol(name, "rows.differ-from-model", "after-failed-call", map[string]any{"tree": gen.Spell(hf, gen.Canonical), "earlier_errors": []string{errStr(failed[0]), errStr(failed[1])}, "got": got, "want": exp, "err": errStr(o.Err)})
+				break
+			}
+		}
+	}
 	// --- failure / break at every visit index k (default branch strings)
 	total := merged.Size()
 	ks := make([]int, 0, total)
@@ -219,7 +285,7 @@ func evalC05(c *Ctx, cs *Case) {
 		sentinel := errors.New("sentinel-" + strconv.Itoa(k))
 		rec := NewRowRec()
 		rec.FailAt, rec.Err = k, sentinel
-		o := Guard(func() error { return gtree.WalkFromMarkdown(strings.NewReader(doc), rec.Callback) })
+		o := Guard(func() error { return gtree.WalkFromMarkdown(MDReader(doc), rec.Callback) })
 		c.Eval(gen.HashString(fkey+"failMD"+strconv.Itoa(k)), true)
 		c.Count("stop_points", 1)
 		if o.Panic != nil {
